@@ -56,6 +56,7 @@ class Ctx:
         self.choices = []     # [(value, n)]
         self.n = 0
         self.axioms = []      # lazily instantiated axioms about UF atoms (z3 bools)
+        self.assumed_keep = []
         self.assumed_ids = {}     # ast id of a condition that literally is a recorded assumption -> its value
         self.sqrt_args = {}       # z3 id of a sqrt atom -> its argument R
         self.on_shadow = True     # every decision so far agreed with the float shadow point
@@ -861,10 +862,10 @@ def make_atom(kind, arg):
                 raise Infeasible('shadow point violates the positive-norm assumption')
             tpos = arg.t > 0
             C.assume.append(tpos)
-            C.assumed_ids[z3.simplify(tpos).get_id()] = True
-            C.assumed_ids[z3.simplify(arg.t <= 0).get_id()] = False
-            C.assumed_ids[z3.simplify(arg.t == 0).get_id()] = False
-            C.assumed_ids[z3.simplify(arg.t != 0).get_id()] = True
+            for term, val in ((tpos, True), (arg.t <= 0, False), (arg.t == 0, False), (arg.t != 0, True)):
+                st = z3.simplify(term)
+                C.assumed_keep.append(st)        # keep the AST alive: z3 reuses ids of collected terms
+                C.assumed_ids[st.get_id()] = val
     C.atoms.append((kind, arg, atom))
     C.stats['atoms'] += 1
     d = ATOM_DEFS[kind](a, arg)
